@@ -299,6 +299,29 @@ def check_registry(repo, rep):
         if out.kind != "return" or got != ["O0", "O3"]:
             rep.violation(rid, "Sandbox.cancel_all_orders", f"cancel_all_orders cancels {got}; expected every active order ['O0', 'O3']")
         rep.instance(rid, "Sandbox.cancel_all_orders", {"cancelled": got})
+    # ... and with the repository's own Order.cancel (which may itself touch the registry): a MARKET order still queued for execution,
+    # followed by a resting STOP and a LIMIT - a stop-and-reverse in one step; every one of them must end CANCELED
+    sell = W.enum_value(repo, "sides", "SELL")
+    market, stop = W.enum_value(repo, "order_types", "MARKET"), W.enum_value(repo, "order_types", "STOP")
+
+    def mk_all(dec):
+        it = Interp(repo, stubs=W.base_stubs(), samples=[dict(x) for x in smp] if smp else [], decisions=dec)
+        _world(repo, it)
+        os_ = [W.make_order(repo, "MKT", sell, market, -R.atom("q"), R.atom("p"), status=st["ACTIVE"]),
+               W.make_order(repo, "STP", buy, stop, R.atom("q"), R.atom("p"), status=st["ACTIVE"]),
+               W.make_order(repo, "LMT", buy, limit, R.atom("q"), R.atom("p"), status=st["ACTIVE"])]
+        stt = W.obj_of(repo, ORDERS_STATE, "OrdersState", "store.orders", {"storage": {KEY: list(os_)}, "active_storage": {KEY: list(os_)}, "to_execute": [os_[0]]})
+        store = it.overrides[f"{W.STORE}:store"]
+        store.attrs["orders"] = stt
+        sb = W.obj_of(repo, SANDBOX, "Sandbox", "sandbox", {"name": "Sandbox"})
+        it.os_ = os_
+        return it, lambda it: it.call(it.getattr(sb, "cancel_all_orders"), ["BTC-USDT"], {})
+    for out in explore(mk_all, 32):
+        left = [o.name for o in out.interp.os_ if o.attrs.get("status") != st["CANCELED"]]
+        if out.kind != "return" or left:
+            rep.violation(rid, "Sandbox.cancel_all_orders|queued-market-first", f"cancel_all_orders with a queued MARKET order followed by a STOP and a LIMIT (all ACTIVE): "
+                          f"{left} not CANCELED afterwards" + (f" ({out.value})" if out.kind != "return" else ""))
+        rep.instance(rid, "Sandbox.cancel_all_orders|queued-market-first", {"left_active": left})
     # pruning in every step for every route: both simulator functions interpreted on mini sessions (props/sessions.py)
     from props import sessions as S
     S.check_protocol(repo, rep, rid, what="prune")
